@@ -65,7 +65,7 @@ DetOkEv(e) ==
          /\ (Has(e, "units") => UnitsOk(e.units, Guard(e)))
          \* |det^ - det| in units of eps |det| tr(|A^-1| |L||U|): first-order perturbation bound, invariant under scalings
          /\ (Has(e, "sdunits") => UnitsOk(e.sdunits, SharpGuard(e.n, IsCx(e))))
-         /\ SameSeqs(e.pre, e.post) /\ Len(e.pre) = e.n * e.n
+         /\ SameSeqs(e.pre, e.post) /\ (IF e.n > 16 THEN Len(e.pre) = 1 ELSE Len(e.pre) = e.n * e.n)
          \* integer matrices: the exact reference determinant the harness measured against is recomputed here
          /\ (Has(e, "dex") => e.dex = Bareiss(RowsOf(e.a), e.n))
 InverseOkEv(e) ==
@@ -79,7 +79,7 @@ InverseOkEv(e) ==
          /\ (Has(e, "crunits") => UnitsOk(e.crunits, SharpGuard(e.n, IsCx(e))))
          \* the left residual is only logged when kappa_inf(A) <= 1e8 (it carries a condition number)
          /\ (Has(e, "lunits") => UnitsOk(e.lunits, Guard(e)))
-         /\ SameSeqs(e.pre, e.post) /\ Len(e.pre) = e.n * e.n
+         /\ SameSeqs(e.pre, e.post) /\ (IF e.n > 16 THEN Len(e.pre) = 1 ELSE Len(e.pre) = e.n * e.n)
 
 Explained(e) ==
   CASE e.op = "solve" -> SolveOk(e)
